@@ -26,7 +26,7 @@ import (
 func init() {
 	Register(&Spec{
 		ID: "C11", Level: "fault_enumeration",
-		Rule: "a recorded history of the all-modules director (every workload on one chain, journaled as genesis + block headers + tx bytes) is re-executed by replicas in separate processes: later in wall-clock time, on an on-disk DB with the application closed and reopened at block boundaries (every k-th block quick, every block thorough, once across process exit), with other GOMAXPROCS/GOGC; per block the app hash, the ordered KV digest of every irismod/bank/auth store and every tx result (code, codespace, data, gas) are compared, and the exported genesis (8 repeated exports per replica) per module section. Host-clock straddle cases place the chain's timestamps at now-D+20s for each duration D found next to a host-clock read in /repo (scan) and a fixed list, run the generator immediately and a replica after the threshold has passed. Thorough adds a -race build running block production concurrently with queries/simulations. evaluations = comparisons made; non-trivial = a block or export compared between two executions; distinct = distinct (replica kind, restart point, D, message types present)",
+		Rule: "a recorded history of the all-modules director (every workload on one chain, journaled as genesis + block headers + tx bytes) is re-executed by replicas in separate processes: later in wall-clock time (and under other time zones and locales), on an on-disk DB with the application closed and reopened at block boundaries (every k-th block quick, every block thorough, once across process exit), with other GOMAXPROCS/GOGC; per block the app hash, the ordered KV digest of every irismod/bank/auth store and every tx result (code, codespace, data, gas) are compared, and the exported genesis (8 repeated exports per replica) per module section. Host-clock straddle cases place the chain's timestamps at now-D+20s for each duration D found next to a host-clock read in /repo (scan) and a fixed list, run the generator immediately and a replica after the threshold has passed. Thorough adds a -race build running block production concurrently with queries/simulations. evaluations = comparisons made; non-trivial = a block or export compared between two executions; distinct = distinct (replica kind, restart point, D, message types present)",
 		Assume: []string{"same machine, architecture and Go version for all replicas", "a race report counts only if the racing access itself lies in mods.irisnet.org code (the SDK store layer races under Query||Commit, which a node never runs concurrently)", "differences confined to event order are recorded as observations, not violations"},
 		Cases:  func(t string) int { return tierN(t, 5, 17) },
 		Run:    runDeterminism,
@@ -504,7 +504,8 @@ func determinismHistory(run *ev.Run, c int, tmp string) {
 	run.Count("history-blocks", int64(blocks))
 	last := gen.Blocks[len(gen.Blocks)-1].Height
 	// R1: fresh process, later
-	r1, err := runReplica(nil, "--journal", jpath, "--seed", seed, "--mode", "later", "--out", filepath.Join(tmp, "r1.json"))
+	// (the later replica also lives in another time zone and locale: nothing of the host's may reach the chain)
+	r1, err := runReplica([]string{"TZ=Asia/Tokyo", "LANG=ja_JP.UTF-8", "LC_ALL=ja_JP.UTF-8"}, "--journal", jpath, "--seed", seed, "--mode", "later", "--out", filepath.Join(tmp, "r1.json"))
 	if err != nil {
 		run.Inconc("replica later: %v", err)
 	} else {
@@ -529,7 +530,7 @@ func determinismHistory(run *ev.Run, c int, tmp string) {
 		if sgm < segments {
 			args = append(args, "--upto", fmt.Sprint(upto))
 		}
-		part, err := runReplica(nil, args...)
+		part, err := runReplica([]string{"TZ=America/St_Johns"}, args...)
 		if err != nil {
 			run.Inconc("replica restart (process %d): %v", sgm, err)
 			failed = true
@@ -612,7 +613,7 @@ func determinismStraddle(run *ev.Run, c int, tmp string, D time.Duration) {
 	}
 	lastT := r.Time
 	notBefore := lastT.Add(D + 4*time.Second)
-	r1, err := runReplica(nil, "--journal", jpath, "--seed", seed, "--mode", "later", "--not-before", fmt.Sprint(notBefore.UnixNano()), "--out", filepath.Join(tmp, "r1.json"))
+	r1, err := runReplica([]string{"TZ=Pacific/Chatham"}, "--journal", jpath, "--seed", seed, "--mode", "later", "--not-before", fmt.Sprint(notBefore.UnixNano()), "--out", filepath.Join(tmp, "r1.json"))
 	if err != nil {
 		run.Inconc("straddle replica D=%s: %v", D, err)
 		return
